@@ -25,6 +25,9 @@
  * Keys     M:<ev>:<button>:<line>:<col>:<mod>  U:<mod>:<utf8hex>:<namehex>  F:<mod>:<namehex>  S:<mod>:<namehex>
  *          R:<initial>:<mode>:<value>  D:<hex>|D:!  X:<type>
  * T        what tickit_term_input_check_timeout_msec returned for W and F (frozen clock: the armed deadline)
+ *
+ * Histories may share a process (batched forks): engine_begin/engine_end reset everything except lib_kmous, which
+ * is a fact about the library under test and is probed once.
  */
 #define HCOMMON_MAIN
 #include "hcommon.h"
